@@ -7,7 +7,7 @@
 //	        -> inv=N v=<view>... w=<status>|<hdrs>|<len:ck> hij=0|1 cl=ok left=N
 //
 // attempt = comma separated fields, executed by the protected handler in this order:
-// r:all|r:N (read body), hs:K:V ha:K:V hd:K u:/path (mutate its request copy), rh:K:V (response
+// r:all|r:N (read body; rc: via io.Copy, rn: via io.CopyN, rp: via 7-byte Reads), hs:K:V ha:K:V hd:K u:/path (mutate its request copy), rh:K:V (response
 // header), s:CODE, w:LEN.SEED ... (Write calls), fl (Flush if the writer offers it), hj (Hijack).  A view is what the handler saw on
 // entry: method|url|X-headers|cl=|te=|oh=(other headers same as incoming)|rd=bytes read|tf=temp
 // files on disk when it returned.  w= is what Buffer sent to the ResponseWriter it was given, cl=
@@ -95,6 +95,7 @@ func otherHeaders(h http.Header) http.Header {
 
 type attempt struct {
 	read    int // -1 = all
+	how     string // r: ReadAll/ReadFull, rc: io.Copy (WriteTo when offered), rn: io.CopyN, rp: small Read calls
 	ops     [][]string
 	setURL  string
 	respHdr [][2]string
@@ -114,7 +115,8 @@ func parseAttempt(s string) attempt {
 			a.hijack = true
 		case fld == "fl":
 			a.flush = true
-		case p[0] == "r" && len(p) == 2:
+		case (p[0] == "r" || p[0] == "rc" || p[0] == "rn" || p[0] == "rp") && len(p) == 2:
+			a.how = p[0]
 			if p[1] != "all" {
 				a.read = hx.Atoi(p[1])
 			}
@@ -240,9 +242,36 @@ func (s *scen) inner(w http.ResponseWriter, r *http.Request) {
 	}
 	view := fmt.Sprintf("v=%s|%s|%s|cl=%d|te=%d|oh=%s", r.Method, r.URL.String(), showHeader(r.Header, true), r.ContentLength, len(r.TransferEncoding), same)
 	var got []byte
-	if a.read < 0 {
+	switch {
+	case a.how == "rc":
+		// io.Copy prefers the source's WriteTo (io.NopCloser forwards it) over Read
+		var buf bytes.Buffer
+		if a.read < 0 {
+			_, _ = io.Copy(&buf, r.Body)
+		} else {
+			_, _ = io.Copy(&buf, io.LimitReader(r.Body, int64(a.read)))
+		}
+		got = buf.Bytes()
+	case a.how == "rn" && a.read >= 0:
+		var buf bytes.Buffer
+		_, _ = io.CopyN(&buf, r.Body, int64(a.read))
+		got = buf.Bytes()
+	case a.how == "rp":
+		chunk := make([]byte, 7)
+		for a.read < 0 || len(got) < a.read {
+			want := len(chunk)
+			if a.read >= 0 && a.read-len(got) < want {
+				want = a.read - len(got)
+			}
+			n, err := r.Body.Read(chunk[:want])
+			got = append(got, chunk[:n]...)
+			if err != nil {
+				break
+			}
+		}
+	case a.read < 0:
 		got, _ = io.ReadAll(r.Body)
-	} else {
+	default:
 		got = make([]byte, a.read)
 		n, _ := io.ReadFull(r.Body, got)
 		got = got[:n]
